@@ -25,7 +25,7 @@ def sh(cmd, cwd=None, env=None, timeout=3600):
 def main():
     pid, x, src, needs = sys.argv[1:5]
     skip_tests = "--skip-tests" in sys.argv
-    name = f"{pid}-{x}"
+    name = os.environ.get("SEED_NAME") or f"{pid}-{x}"
     dst = f"/verif/seeded/{name}"
     os.makedirs(dst, exist_ok=True)
     patch = os.path.join(src, f"patch{x}.diff")
